@@ -23,7 +23,8 @@ ASSUMPTIONS = [
     "a file whose INDEX column is text is judged on the read clauses; write() of such an object raises TypeError "
     "(STRT/STOP/STEP are computed from a numeric index), the write->read cycle is attempted for it only under TEXT_INDEX_WRITE",
     "numeric equality of a sample and NULL is IEEE == on the doubles CPython assigns to the two texts (oracle numeq)",
-    "on writing, NaN -> str(NULL) is the writer's rule (C01/C16 model); the write->read cycle is checked on the implementation",
+    "on writing, NaN -> str(NULL) is the writer's rule (C01/C16 model); the write->read cycle is checked on the implementation: "
+    "NaN positions equal after write->read, and the token written at each NaN position is numerically the header NULL value",
 ]
 
 NULLS = [("-999.25", ["-999.25", "-999.2500", "-9.9925E2", "-99925e-2"]),
@@ -32,7 +33,18 @@ NULLS = [("-999.25", ["-999.25", "-999.2500", "-9.9925E2", "-99925e-2"]),
          ("999", ["999", "999.0", "+999", "9.99E+2"]),
          ("1e30", ["1e30", "1E+30", "1000000000000000000000000000000"]),
          ("-9.9925E2", ["-999.25", "-9.9925E2"]),
-         ("9999.25", ["9999.25", "9999.250"])]
+         ("9999.25", ["9999.25", "9999.250"]),
+         # NULL values that need more than six significant digits / a large magnitude / an exponent spelling: the writer must
+         # emit a NaN as the FULL value (str(NULL)), a shortened text (%g, %.2f ...) is a different number
+         ("-99999.25", ["-99999.25", "-99999.250", "-9.999925E4"]),
+         ("-999.2501", ["-999.2501", "-999.25010", "-9.992501e2"]),
+         ("-9.9999925E4", ["-99999.925", "-9.9999925E4", "-99999.9250"]),
+         ("1234567.5", ["1234567.5", "1.2345675e6", "+1234567.50"]),
+         ("-999.250001", ["-999.250001", "-9.99250001E2"]),
+         ("-1.0000001e30", ["-1.0000001e30", "-1.0000001E+30", "-10000001e23"]),
+         ("-2147483648.5", ["-2147483648.5", "-2.1474836485e9"]),
+         ("0.000123456789", ["0.000123456789", "1.23456789e-4"])]
+LONG_NULLS = {"-99999.25", "-999.2501", "-9.9999925E4", "1234567.5", "-999.250001", "-1.0000001e30", "-2147483648.5", "0.000123456789"}
 
 
 TEXT_NULLS = ["N/A", "null", "-", "15_9", "1e", "NONE", "-999.25.0"]
@@ -203,10 +215,18 @@ def oracle(s, text, engine, policy):
                     xn = isinstance(x, float) and math.isnan(x)
                     yn = isinstance(y, float) and math.isnan(y)
                     if xn != yn:
-                        return "NaN position (%d,%d) changed over write->read: %r -> %r" % (i, j, x, y)
+                        return "NaN position (%d,%d) changed over write->read: %r -> %r (NULL %s)" % (i, j, x, y, s.null)
             # every NaN is emitted as the NULL value (never as the word 'nan')
             body = buf.getvalue().split("~A", 1)[1].split("\n")[1:]
             toks = [t for ln in body for t in ln.split()]
+            # ... as the NULL VALUE: the text written at a NaN position is numerically the header NULL (the file is written
+            # unwrapped, one line per row, one token per curve; text columns of the generator hold no blanks)
+            grid = [ln.split() for ln in body if ln.strip()]
+            if nv is not None and len(grid) == nr and all(len(g_) == nc for g_ in grid):
+                for j, c1 in enumerate(las.curves):
+                    for i, x in enumerate(c1.data):
+                        if isinstance(x, float) and math.isnan(x) and tofloat(grid[i][j]) not in (nv, nv2):
+                            return "NaN at (%d,%d) was written as %r, which is not the NULL value %s" % (i, j, grid[i][j], s.null)
             if any(t.lower() in ("nan", "-nan") for t in toks):
                 return "a NaN sample was written as the text %r instead of the NULL value %s" % ("nan", s.null)
             if nv is None and any(isinstance(y, float) and math.isnan(y) for c2 in las2.curves for y in c2.data):
@@ -223,7 +243,7 @@ def run(ctx):
     cases, meta, kinds = [], [], set()
     hist = {"wrapped": 0, "text_column": 0, "null_in_index": 0, "null_cells": 0, "near_null_cells": 0,
             "no_null_item": 0, "null_is_text": 0, "null_decimal_comma": 0, "null_item_twice": 0, "null_item_twice_same_value": 0,
-            "dlm_comma": 0, "dlm_tab": 0, "text_index": 0}
+            "dlm_comma": 0, "dlm_tab": 0, "text_index": 0, "long_null_value": 0, "long_null_value_with_null_cells_off_index": 0}
     for _ in range(n):
         s = gen_case(rng)
         text = render(s, rng)
@@ -241,6 +261,9 @@ def run(ctx):
         kinds.add((s.null, s._null2, s.dlm, s.wrap, s._text_col is not None, s._text_col == 0, min(nulls, 3),
                    nv is not None and tofloat(s.rows[0][0]) == nv))
         hist["wrapped"] += s.wrap == "YES"
+        if s._mode == "num" and s.null in LONG_NULLS:
+            hist["long_null_value"] += 1
+            hist["long_null_value_with_null_cells_off_index"] += any(tofloat(t) == nv for row in s.rows for t in row[1:])
         hist["text_column"] += s._text_col is not None
         hist["null_in_index"] += any(nv is not None and tofloat(row[0]) == nv for row in s.rows)
         hist["null_cells"] += nulls
@@ -261,7 +284,8 @@ def run(ctx):
         res.corr_error = "model not built"
     res.cases = len(cases)
     res.distinct_nontrivial = len(kinds)
-    res.rule = ("files whose NULL is one of {-999.25,-9999,0,999,1e30,-9.9925E2,9999.25}, or absent, textual (N/A, ...), spelled with a "
+    res.rule = ("files whose NULL is one of {-999.25,-9999,0,999,1e30,-9.9925E2,9999.25} or a value needing more than six significant "
+                "digits (-99999.25, -999.2501, -9.9999925E4, 1234567.5, -1.0000001e30, ...), or absent, textual (N/A, ...), spelled with a "
                 "decimal comma (-999,25) or given by TWO NULL items; data blank-, COMMA- or TAB-delimited; optional text column, also "
                 "as the index; cells are NULL in several spellings, "
                 "near-NULL (+-1 ulp, +-1e-6, sign flipped) or ordinary numbers, in every column incl. the index, optional text "
